@@ -18,6 +18,7 @@ import FwdVerif.Lemmas.C08Checker
 import FwdVerif.Lemmas.C08Timed
 import FwdVerif.Lemmas.C08Stable
 import FwdVerif.Lemmas.C08Stack
+import FwdVerif.Lemmas.C08Seq
 
 namespace FwdVerif
 namespace C08
@@ -644,6 +645,206 @@ theorem c08_stack_swapped_witness :
     stackRead (limiterFirstStack stackEx) (some ⟨1, 4194304, 0⟩) 100 0 [⟨0, f5Line.bytes ++ [104, 101, 108, 108, 111]⟩] =
       ⟨.accepted (v1Hdr (List.replicate 16 0) (List.replicate 16 0) 1 2) [104, 101, 108, 108, 111], 27⟩ := by
   refine ⟨?_, ?_, ?_⟩ <;> decide
+
+/-! ### the accepted connection over operation sequences (`Model/C08Seq.lean`)
+
+  `SConn.step .latch timeout` is `net.go`: any call that needs the header enters `readHeaderContext`;
+  `ReadHeader` runs for the first caller only and what it returned is stored (`headerErr` / `header`,
+  `isHeaderRead`).  The states below are arbitrary: any bytes in the socket, any bytes still to come
+  from the peer (`later`, delivered by the event `more`), any deadline, any `ReadHeaderTimeout`
+  (`0` = no limit). -/
+
+/-- the witness stream: 13 bytes without a signature, then a well-formed header, then `hello` -/
+def seqGarbage : Bytes := [71, 69, 84, 32, 47, 32, 72, 84, 84, 80, 47, 49, 46]     -- "GET / HTTP/1."
+def seqHello : Bytes := [104, 101, 108, 108, 111]
+def seqBadThenGood : Bytes := seqGarbage ++ (f5Line.bytes ++ seqHello)
+
+/-- A call that is answered with the header error has left the connection in the failed state. -/
+theorem c08_failed_call_fails_the_connection (timeout : Nat) (c : SConn) (op : SOp) (e : SeqErr)
+    (hout : (c.step .latch timeout op).2 = .fail e) : (c.step .latch timeout op).1.phase = .failed e := by
+  obtain ⟨s1, s2, _, _, _⟩ := enter_latch_spec timeout c
+  cases op with
+  | more => simp [SConn.step] at hout
+  | setDeadline ms => simp [SConn.step] at hout
+  | close => simp [SConn.step] at hout
+  | remoteAddr =>
+    simp only [SConn.step] at hout ⊢
+    cases hx : c.enter .latch timeout with
+    | mk c' r => rw [hx] at hout; cases r <;> simp at hout
+  | localAddr =>
+    simp only [SConn.step] at hout ⊢
+    cases hx : c.enter .latch timeout with
+    | mk c' r => rw [hx] at hout; cases r <;> simp at hout
+  | header =>
+    simp only [SConn.step] at hout ⊢
+    cases hx : c.enter .latch timeout with
+    | mk c' r =>
+      rw [hx] at hout s1
+      cases r with
+      | ok h => simp at hout
+      | blocked => simp at hout
+      | failed e' =>
+        simp only [SOut.fail.injEq] at hout
+        subst hout
+        exact s1 e' rfl
+  | write =>
+    simp only [SConn.step] at hout ⊢
+    cases hx : c.enter .latch timeout with
+    | mk c' r =>
+      rw [hx] at hout s1
+      cases r with
+      | ok h => by_cases hs : c'.sockClosed = true <;> simp [hs] at hout
+      | blocked => simp at hout
+      | failed e' =>
+        simp only [SOut.fail.injEq] at hout
+        subst hout
+        exact s1 e' rfl
+  | read k =>
+    simp only [SConn.step] at hout ⊢
+    cases hx : c.enter .latch timeout with
+    | mk c' r =>
+      rw [hx] at hout s1 s2
+      cases r with
+      | blocked => simp at hout
+      | failed e' =>
+        simp only [SOut.fail.injEq] at hout
+        subst hout
+        exact s1 e' rfl
+      | ok h =>
+        obtain ⟨rest, hp⟩ := s2 h rfl
+        simp only [] at hp
+        simp only [hp, sockRead] at hout
+        by_cases hs : c'.sockClosed = true
+        · simp [hs] at hout
+        · by_cases hd : c'.dl = .expired
+          · simp [hs, hd] at hout
+          · by_cases hr : rest = []
+            · by_cases hf : c'.fin = true
+              · simp [hs, hd, hr, hf] at hout
+              · cases hd2 : c'.dl <;> simp [hs, hd2, hr, hf] at hout
+            · simp [hs, hd, hr] at hout
+
+/-- **The header failure is sticky.**  Let any caller enter `readHeaderContext` on any connection
+    state and come back with the error `e` (a refused header, no signature, a stream that ended or
+    stalled inside the header, a closed socket).  Then the connection is in the failed state, and for
+    EVERY further sequence of calls and peer events — whatever the peer has sent behind the bad
+    prefix or sends later (`c.later` is arbitrary: a well-formed header followed by payload
+    included), whatever the deadline and the timeout setting — every `Read`, `Write` and `Header` is
+    answered with that same error, no byte is delivered, `RemoteAddr`/`LocalAddr` are the socket's own,
+    the state stays failed and `ReadHeader` is never run again. -/
+theorem c08_header_failure_is_sticky (timeout : Nat) (c : SConn) (e : SeqErr)
+    (hfail : (c.enter .latch timeout).2 = .failed e) (ops : List SOp) :
+    (c.enter .latch timeout).1.phase = .failed e ∧
+    FailAnswers e ops (SConn.run .latch timeout (c.enter .latch timeout).1 ops).2 ∧
+    sdataOf (SConn.run .latch timeout (c.enter .latch timeout).1 ops).2 = [] ∧
+    (SConn.run .latch timeout (c.enter .latch timeout).1 ops).1.phase = .failed e ∧
+    (SConn.run .latch timeout (c.enter .latch timeout).1 ops).1.parses = (c.enter .latch timeout).1.parses := by
+  have hp := (enter_latch_spec timeout c).1 e hfail
+  obtain ⟨r1, r2, r3, r4⟩ := run_of_failed timeout e ops _ hp
+  exact ⟨hp, r1, r4, r2, r3⟩
+
+set_option maxRecDepth 100000 in
+/-- …on the witness stream, for `ReadHeaderTimeout` 0 and 5000 alike: the well-formed header behind
+    the 13 rejected bytes is never read as a header, also not when part of it arrives later. -/
+example : (SConn.run .latch 0 { phase := .pending seqBadThenGood } [.read 64, .read 64, .remoteAddr, .header, .write, .localAddr]).2 =
+    [.fail (.hdr .notProxy), .fail (.hdr .notProxy), .addr .sock, .fail (.hdr .notProxy), .fail (.hdr .notProxy), .addr .sock] ∧
+    (SConn.run .latch 5000 { phase := .pending seqGarbage, later := f5Line.bytes ++ seqHello, fin := false }
+        [.remoteAddr, .more, .read 64, .setDeadline none, .read 1]).2 =
+    [.addr .sock, .arrived, .fail (.hdr .notProxy), .done, .fail (.hdr .notProxy)] := by
+  refine ⟨?_, ?_⟩ <;> decide
+
+/-- **The header success is sticky.**  Once a caller has come back from `readHeaderContext` with the
+    header `h`, every later `RemoteAddr` / `LocalAddr` / `Header` is answered from that header,
+    `ReadHeader` is never run again, and the bytes handed to `Read` callers followed by what is still
+    to be delivered are exactly the bytes behind the header (`avail`: the unread rest and what the
+    peer has yet to send) — nothing lost, nothing added, nothing re-read as a header. -/
+theorem c08_header_success_is_sticky (v : Variant) (timeout : Nat) (c : SConn) (h : Header)
+    (hok : (c.enter .latch timeout).2 = .ok h) (ops : List SOp) :
+    OkAnswers h ops (SConn.run v timeout (c.enter .latch timeout).1 ops).2 ∧
+    sdataOf (SConn.run v timeout (c.enter .latch timeout).1 ops).2 ++
+      (SConn.run v timeout (c.enter .latch timeout).1 ops).1.avail = (c.enter .latch timeout).1.avail ∧
+    (∃ r, (SConn.run v timeout (c.enter .latch timeout).1 ops).1.phase = .ok h r) ∧
+    (SConn.run v timeout (c.enter .latch timeout).1 ops).1.parses = (c.enter .latch timeout).1.parses := by
+  obtain ⟨rest, hp⟩ := (enter_latch_spec timeout c).2.1 h hok
+  obtain ⟨r1, r2, r3, r4⟩ := run_of_ok v timeout h ops _ rest hp
+  exact ⟨r1, r4, r2, r3⟩
+
+/-- the first caller on a fresh connection reads the header from the start of the stream: what is
+    then to be delivered is `payloadOf` the stream, followed by what the peer sends later -/
+theorem c08_seq_first_entry_reads_stream_start (timeout : Nat) (wire later : Bytes) (fin : Bool) (h : Header) (rest : Bytes)
+    (hr : readHeader wire = .ok (h, rest)) :
+    (SConn.enter .latch timeout { phase := .pending wire, later := later, fin := fin }).2 = .ok h ∧
+    (SConn.enter .latch timeout { phase := .pending wire, later := later, fin := fin }).1.avail = rest ++ later := by
+  simp [SConn.enter, hr, SConn.avail]
+
+set_option maxRecDepth 100000 in
+example : (SConn.run .latch 0 { phase := .pending (f5Line.bytes ++ seqHello) } [.read 2, .remoteAddr, .read 64, .read 64, .write]).2 =
+    [.data [104, 101], .addr (.hdr ⟨false, List.replicate 16 0, 1⟩), .data [108, 108, 111], .eof, .wrote] := by decide
+
+/-- **The outcome does not depend on the `ReadHeaderTimeout` setting** (0 = no limit, tiny, the 5 s
+    default), except that it decides whether a *stalled* header read is cut: on a connection whose
+    peer has closed its write side every sequence of calls is answered identically under any two
+    settings; in any state at all, a single call is answered identically unless a header read would
+    stall in it (`stalled`: the peer is silent inside the header, the socket open). -/
+theorem c08_outcome_independent_of_read_header_timeout_setting (v : Variant) (t1 t2 : Nat) :
+    (∀ (c : SConn) (ops : List SOp), c.fin = true → SConn.run v t1 c ops = SConn.run v t2 c ops) ∧
+    (∀ (c : SConn) (op : SOp), c.stalled = false → c.step v t1 op = c.step v t2 op) :=
+  ⟨fun c ops h => run_timeout_indep v t1 t2 ops c h, fun c op h => step_timeout_indep v t1 t2 c h op⟩
+
+/-- …and the difference in a stalled state: with a positive timeout the caller comes back with the
+    timeout error, stored, and the socket is closed; with 0 and no deadline on the socket the call
+    does not return (state unchanged); with 0 and a deadline the deadline ends it, stored as well. -/
+theorem c08_stalled_header_cut_by_timeout_or_deadline (c : SConn) (hst : c.stalled = true) :
+    (∀ t, t > 0 → c.dl = .off →
+      (c.enter .latch t).2 = .failed .cut ∧ (c.enter .latch t).1.sockClosed = true ∧ (c.enter .latch t).1.phase = .failed .cut) ∧
+    (c.dl = .off → c.enter .latch 0 = (c, .blocked)) ∧
+    (∀ ms, c.dl = .armed ms →
+      (c.enter .latch 0).2 = .failed .cut ∧ (c.enter .latch 0).1.phase = .failed .cut ∧ (c.enter .latch 0).1.sockClosed = false) := by
+  unfold SConn.stalled at hst
+  cases hp : c.phase with
+  | ok h r => simp [hp] at hst
+  | failed e => simp [hp] at hst
+  | pending wire =>
+    simp only [hp] at hst
+    cases hr : readHeader wire with
+    | ok p => simp [hr] at hst
+    | panic => simp [hr] at hst
+    | err e =>
+      simp only [hr, Bool.and_eq_true, Bool.not_eq_true', bne_iff_ne, ne_eq, beq_iff_eq] at hst
+      obtain ⟨⟨⟨h1, h2⟩, h3⟩, h4⟩ := hst
+      refine ⟨?_, ?_, ?_⟩
+      · intro t ht hd
+        have : ¬ t = 0 := by omega
+        simp [SConn.enter, hp, h1, hd, hr, h4, h3, cutBy, ht, failWith]
+      · intro hd
+        simp [SConn.enter, hp, h1, hd, hr, h4, h3, cutBy]
+      · intro ms hd
+        simp [SConn.enter, hp, h1, hd, hr, h4, h3, cutBy, failWith]
+
+set_option maxRecDepth 100000 in
+/-- a stalled state: four bytes of a signature, the peer silent with the connection open -/
+example : (SConn.stalled { phase := .pending [80, 82, 79, 88], later := f5Line.bytes, fin := false }) = true ∧
+    (SConn.run .latch 40 { phase := .pending [80, 82, 79, 88], later := f5Line.bytes, fin := false } [.remoteAddr, .more, .read 8]).2 =
+      [.addr .sock, .arrived, .fail .cut] ∧
+    (SConn.run .latch 0 { phase := .pending [80, 82, 79, 88], later := f5Line.bytes, fin := false } [.setDeadline (some 300), .remoteAddr, .more, .setDeadline none, .read 8]).2 =
+      [.done, .addr .sock, .arrived, .done, .fail .cut] := by
+  refine ⟨?_, ?_, ?_⟩ <;> decide
+
+set_option maxRecDepth 100000 in
+/-- **Witness for the non-latching variant** (`Variant.relatch`: a failing `ReadHeader` returns its
+    error without storing it; after the 13 identifier bytes of a stream without signature the next
+    caller parses again).  On `GET / HTTP/1.` ++ `PROXY TCP6 :: :: 1 2\r\n` ++ `hello` with no header
+    timeout: the first `Read` fails in both; in the variant the second `Read` delivers `hello` and
+    `RemoteAddr` is the address advertised by the later header, `ReadHeader` having run twice; the
+    code answers the error again, reports the socket's address and has parsed once. -/
+theorem c08_relatch_witness :
+    (SConn.run (.relatch fun _ => 13) 0 { phase := .pending seqBadThenGood } [.read 64, .read 64, .remoteAddr]) =
+      ({ phase := .ok (v1Hdr (List.replicate 16 0) (List.replicate 16 0) 1 2) [], parses := 2 },
+       [.fail (.hdr .notProxy), .data seqHello, .addr (.hdr ⟨false, List.replicate 16 0, 1⟩)]) ∧
+    (SConn.run .latch 0 { phase := .pending seqBadThenGood } [.read 64, .read 64, .remoteAddr]) =
+      ({ phase := .failed (.hdr .notProxy), parses := 1 },
+       [.fail (.hdr .notProxy), .fail (.hdr .notProxy), .addr .sock]) := by
+  refine ⟨?_, ?_⟩ <;> decide
 
 end C08
 end FwdVerif
